@@ -6,9 +6,12 @@ import (
 	"encoding/json"
 	"fmt"
 	"os"
+	"runtime"
+	"sync/atomic"
 	"testing"
 	"time"
 
+	"github.com/welllog/golib/listz"
 	"pgregory.net/rapid"
 
 	"verif/harness/internal/conc"
@@ -90,6 +93,141 @@ func init() {
 		// schedule-dependent: re-run the program many times
 		for i := 0; i < 400; i++ {
 			if err := runRaced(c, &pb.Rec{}); err != nil {
+				return err
+			}
+		}
+		return nil
+	})
+}
+
+// ---- producer/consumer loops on real goroutines (race detector + MPMC conservation/order oracle)
+
+type loopCase struct {
+	Producers int
+	Consumers int
+	PerProd   int
+	Waits     bool
+}
+
+func runLoops(c loopCase) error {
+	if c.Producers < 1 || c.Producers > 8 || c.Consumers < 1 || c.Consumers > 8 || c.PerProd < 1 || c.PerProd > 100000 {
+		return nil
+	}
+	l := listz.NewSync[int]()
+	total := c.Producers * c.PerProd
+	var consumed int64
+	got := make([][]int, c.Consumers)
+	var lenErr atomic.Value
+	stop := make(chan struct{})
+	var bodies []func()
+	for p := 0; p < c.Producers; p++ {
+		p := p
+		bodies = append(bodies, func() {
+			for i := 0; i < c.PerProd; i++ {
+				l.Push(p*1000000 + i)
+			}
+		})
+	}
+	for k := 0; k < c.Consumers; k++ {
+		k := k
+		bodies = append(bodies, func() {
+			for atomic.LoadInt64(&consumed) < int64(total) {
+				v, ok := l.Pop()
+				if !ok {
+					runtime.Gosched()
+					continue
+				}
+				got[k] = append(got[k], v)
+				atomic.AddInt64(&consumed, 1)
+			}
+		})
+	}
+	obsDone := make(chan struct{})
+	go func() {
+		defer close(obsDone)
+		for {
+			select {
+			case <-stop:
+				return
+			default:
+			}
+			if n := l.Len(); n < 0 {
+				lenErr.CompareAndSwap(nil, fmt.Sprintf("Len() = %d during the run", n))
+			}
+			runtime.Gosched()
+		}
+	}()
+	panics := conc.RunRaced(bodies)
+	close(stop)
+	<-obsDone
+	if len(panics) > 0 {
+		return fmt.Errorf("panic in a goroutine: %v", panics[0])
+	}
+	if e := lenErr.Load(); e != nil {
+		return fmt.Errorf("%s", e)
+	}
+	seen := map[int]bool{}
+	for k, vs := range got {
+		last := map[int]int{}
+		for _, v := range vs {
+			if seen[v] {
+				return fmt.Errorf("value %d popped twice", v)
+			}
+			seen[v] = true
+			p, i := v/1000000, v%1000000
+			if p < 0 || p >= c.Producers || i >= c.PerProd {
+				return fmt.Errorf("invented value %d", v)
+			}
+			if prev, ok := last[p]; ok && i < prev {
+				return fmt.Errorf("consumer %d received value %d of producer %d after value %d: FIFO order violated", k, i, p, prev)
+			}
+			last[p] = i
+		}
+	}
+	if len(seen) != total {
+		return fmt.Errorf("%d of %d values came out (lost values)", len(seen), total)
+	}
+	if l.Len() != 0 {
+		return fmt.Errorf("after the run: Len=%d", l.Len())
+	}
+	if _, ok := l.Pop(); ok {
+		return fmt.Errorf("after the run: Pop succeeded on an empty list")
+	}
+	return nil
+}
+
+func TestRacedLoops(t *testing.T) {
+	st := pb.Stats("synclist_raced_loops")
+	st.SetRule("1-4 producers x 200-3000 values and 1-4 consumers spinning on a SyncList on real goroutines under the race detector, with an observer calling Len; oracle: every value comes out exactly once, per consumer the values of one producer arrive in increasing order, Len never negative, list empty afterwards; every drawn configuration is a case, non-trivial = >= 2 producers and >= 2 consumers")
+	gen := rapid.Custom(func(t *rapid.T) loopCase {
+		return loopCase{Producers: rapid.IntRange(1, 4).Draw(t, "p"), Consumers: rapid.IntRange(1, 4).Draw(t, "c"), PerProd: rapid.IntRange(200, 3000).Draw(t, "n")}
+	})
+	n := pb.Scaled(40)
+	for i := 0; i < n; i++ {
+		c := gen.Example(int(pb.Seed("loops")%1000003) + i)
+		js, _ := json.Marshal(c)
+		if cur := os.Getenv("VERIF_CURRENT_CASE"); cur != "" {
+			os.WriteFile(cur, wrapReplay("synclist_raced_loops", js), 0o644)
+		}
+		if err := runLoops(c); err != nil {
+			st.Violation("raced-loops", js, err)
+			t.Fatalf("loops %s: %v", js, err)
+		}
+		rec := &pb.Rec{}
+		rec.NonTrivialIf(c.Producers >= 2 && c.Consumers >= 2)
+		rec.ClassIf(c.Producers >= 2 && c.Consumers >= 2, "MPMC")
+		st.Case(js, rec)
+	}
+}
+
+func init() {
+	pb.RegisterReplay("synclist_raced_loops", func(raw json.RawMessage) error {
+		var c loopCase
+		if err := json.Unmarshal(raw, &c); err != nil {
+			return fmt.Errorf("BADREPLAY: %v", err)
+		}
+		for i := 0; i < 20; i++ {
+			if err := runLoops(c); err != nil {
 				return err
 			}
 		}
